@@ -39,6 +39,8 @@ type c06Case struct {
 	PriorGen bool          `json:"priorgen,omitempty"` // history in the process: the OTHER generation of the same set (same names, lengths, first 16 KiB => same file ids and set id; other content) was verified first, in a directory of its own
 	Dec      *decProtoCase `json:"dec,omitempty"`      // operation sequences (incl. loads that fail half-way) on one Decoder object over a foreign layout
 	Stray    int           `json:"stray,omitempty"`    // a file matching <base>.*.par2 that holds only another set's packets: 1 = listed first, 2 = between the volumes, 3 = last, 4 = first and last
+	CrossDup int           `json:"crossdup,omitempty"` // recovery blocks stored in more than one volume file: 1 = the first block of the first volume also at the end of the last volume, 2 = every block also in the next volume
+	DC       int           `json:"dc,omitempty"`       // Repair's double check: 0 = on when an odd number of slices is lost, 1 = on, 2 = off
 	Damage   string        `json:"damage"`             // none, del0, del1, ovw0, ovw1
 	G        int           `json:"g,omitempty"`
 }
@@ -119,6 +121,14 @@ func c06Alternatives(allPerms bool) []func(*c06Case) {
 	for st := 1; st <= 4; st++ {
 		st := st
 		alts = append(alts, func(c *c06Case) { c.Stray = st })
+	}
+	for _, cd := range [][2]int{{1, 2}, {2, 2}, {1, 3}, {2, 3}} {
+		cd := cd
+		alts = append(alts, func(c *c06Case) { c.CrossDup, c.NVol = cd[0], cd[1] })
+	}
+	for dc := 1; dc <= 2; dc++ {
+		dc := dc
+		alts = append(alts, func(c *c06Case) { c.DC = dc })
 	}
 	for _, vn := range [][]string{{"x", "y", "z"}, {"a b", "c d", "e"}, {"v[1]", "v[2]", "v[3]"}, {"v*", "w?", "u\\"}, {"vol000+01", "vol001+02", "vol003+99"}, {"par2", "vol.par2", ".."}, {"", "a", "b"}, {"x", "", "y"}} { // "" gives <base>..par2: the '*' of <base>.*.par2 matches nothing
 		vn := vn
@@ -381,6 +391,20 @@ func c06Run(ci interface{}, r *core.Rec) {
 		v := i % nvol
 		vols[v] = append(vols[v], set.RecvPacket(uint32(e), set.RecoveryBlock(e)))
 	}
+	if c.CrossDup != 0 && nvol >= 2 {
+		orig := make([][][]byte, nvol)
+		for v := range vols {
+			orig[v] = append([][]byte{}, vols[v]...)
+		}
+		if c.CrossDup == 1 && len(orig[0]) > 0 {
+			vols[nvol-1] = append(vols[nvol-1], orig[0][0])
+		}
+		if c.CrossDup == 2 {
+			for v := range orig {
+				vols[(v+1)%nvol] = append(vols[(v+1)%nvol], orig[v]...)
+			}
+		}
+	}
 	for v := 0; v < nvol; v++ {
 		recv := vols[v]
 		if c.RecvRev {
@@ -527,12 +551,16 @@ func c06Run(ci interface{}, r *core.Rec) {
 			r.Violatef("verify-did-not-find-all-recovery-blocks", "usable recovery blocks %d, the layout stores %d distinct intact blocks %v beside the index", a.UsableParityShardCount, N, exps)
 		}
 	}
+	dcOn := K%2 == 1
+	if c.DC != 0 {
+		dcOn = c.DC == 1
+	}
 	var rL, rC par2.RepairResult
-	if pi := core.Catch(func() { rL, eRL = par2.Repair(indexL, par2.RepairOptions{NumGoroutines: g, DoubleCheck: K%2 == 1}) }); pi != nil {
+	if pi := core.Catch(func() { rL, eRL = par2.Repair(indexL, par2.RepairOptions{NumGoroutines: g, DoubleCheck: dcOn}) }); pi != nil {
 		r.Violate("repair-panic:"+pi.Frame, pi.Value+"\n"+pi.Stack)
 		return
 	}
-	rC, eRC = par2.Repair(indexC, par2.RepairOptions{NumGoroutines: g, DoubleCheck: K%2 == 1})
+	rC, eRC = par2.Repair(indexC, par2.RepairOptions{NumGoroutines: g, DoubleCheck: dcOn})
 	_ = rC
 	restored := true
 	for i, n := range names {
